@@ -44,6 +44,32 @@ from sa.model import Model
 
 _m = Model(src)
 init_order = {c.key: _m.init_order(c) for c in _m.all_classes() if c.is_dataclass and "__init__" not in c.methods}
-out = {"note": old.get("note", ""), "functions": sorted(set(funcs)), "call_styles": call_styles(trees), "locals": locs, "init_order": init_order}
+defaults = {}
+def _defaults(rel, qual, node):
+    a = node.args
+    pos = a.posonlyargs + a.args
+    d = {}
+    for arg, dv in zip(pos[len(pos) - len(a.defaults):], a.defaults):
+        d[arg.arg] = ast.unparse(dv)
+    for arg, dv in zip(a.kwonlyargs, a.kw_defaults):
+        if dv is not None:
+            d[arg.arg] = ast.unparse(dv)
+    if d and not node.name.startswith("_") and not rel.startswith("tests"):
+        defaults[f"{rel}::{qual}"] = d
+for rel, tree in sorted(trees.items()):
+    for node in tree.body:
+        if isinstance(node, ast.FunctionDef):
+            _defaults(rel, node.name, node)
+        elif isinstance(node, ast.ClassDef):
+            for s in node.body:
+                if isinstance(s, ast.FunctionDef):
+                    _defaults(rel, f"{node.name}.{s.name}", s)
+field_defaults = {}
+for c in _m.all_classes():
+    if c.is_dataclass and not c.module.rel.startswith("tests"):
+        d = {f.name: ast.unparse(f.node.value) for f in c.own_fields if f.node.value is not None}
+        if d:
+            field_defaults[c.key] = d
+out = {"field_defaults": field_defaults, "defaults": defaults, "note": old.get("note", ""), "functions": sorted(set(funcs)), "call_styles": call_styles(trees), "locals": locs, "init_order": init_order}
 json.dump(out, open(path, "w"), indent=0)
 print(len(out["functions"]), "functions,", len(out["call_styles"]), "call-style entries;", "functions changed" if set(old.get("functions", [])) != set(out["functions"]) else "functions unchanged")
